@@ -3,7 +3,10 @@
 // one zero-count rule of the checker, so a rule that stops firing here is dead.
 package zzverifpositive
 
-import "os"
+import (
+	"os"
+	"sync"
+)
 
 var counter int
 
@@ -52,4 +55,14 @@ func LeaksOnError(name string) (*os.File, error) {
 		return nil, err
 	}
 	return f, nil
+}
+
+var pool sync.Pool
+
+// UsesPackagePool violates R3.1 (address of package-level storage handed to
+// sync.Pool, which mutates it).
+func UsesPackagePool() any {
+	v := pool.Get()
+	pool.Put(v)
+	return v
 }
